@@ -287,7 +287,7 @@ func TestLipschitz3(t *testing.T) {
 	rec := ev.Get()
 	rapid.Check(t, func(t *rapid.T) {
 		S := rapid.SampledFrom([]float64{1, 10, 100}).Draw(t, "scale")
-		n := shape.Gen3(t, shape.Opts{S: S, Depth: rapid.IntRange(1, ev.Pick(3, 4)).Draw(t, "depth"), Grammar: shape.Lipschitz})
+		n := shape.Gen3(t, shape.Opts{S: S, Depth: rapid.IntRange(1, ev.Pick(3, 4)).Draw(t, "depth"), Grammar: shape.Lipschitz, SolidUnion2: true})
 		b, err := shape.Build(n)
 		if err != nil {
 			rec.Count("discarded:constructor-rejected", 1)
@@ -379,7 +379,7 @@ func TestLipschitz2(t *testing.T) {
 	rec := ev.Get()
 	rapid.Check(t, func(t *rapid.T) {
 		S := rapid.SampledFrom([]float64{1, 10, 100}).Draw(t, "scale")
-		n := shape.Gen2(t, shape.Opts{S: S, Depth: rapid.IntRange(1, ev.Pick(3, 4)).Draw(t, "depth"), Grammar: shape.Lipschitz})
+		n := shape.Gen2(t, shape.Opts{S: S, Depth: rapid.IntRange(1, ev.Pick(3, 4)).Draw(t, "depth"), Grammar: shape.Lipschitz, SolidUnion2: true})
 		b, err := shape.Build(n)
 		if err != nil {
 			rec.Count("discarded:constructor-rejected", 1)
@@ -448,4 +448,21 @@ func TestLipschitz2(t *testing.T) {
 		rec.Case(straddle > 0 && n.Combinators() >= 1, n.String(), opLabels(n)...)
 		rec.Sample("lipschitz2", map[string]any{"program": n.String(), "pairs": npairs, "on_seam": straddle})
 	})
+}
+
+// TestRegress keeps the known finding of this property visible: the box-pruned 2D union is not
+// 1-Lipschitz when an operand has no material in its box (the main campaign excludes the class by
+// construction: operands of 2D unions are generated without difference / intersection / cut).
+func TestRegress(t *testing.T) {
+	rec := ev.Get()
+	c := func(r float64) sdf.SDF2 { s, _ := sdf.Circle2D(r); return s }
+	empty := sdf.Intersect2D(sdf.Transform2D(c(0.5), sdf.Translate2d(v2.Vec{X: 5, Y: 1}).Mul(sdf.Rotate2d(1))), c(0.5))
+	big := sdf.ScaleUniform2D(c(2.718281828459045), 1.2840254166877414)
+	u := sdf.Union2D(big, empty)
+	p, q := v2.Vec{X: 3.645579244638054, Y: 1.9951714787309205}, v2.Vec{X: 7.295670478157397, Y: 2.4538241911904817}
+	fp, fq := u.Evaluate(p), u.Evaluate(q)
+	rec.Case(true, "regress-pruned-union", "regress")
+	if d := q.Sub(p).Length(); math.Abs(fp-fq) > d*(1+1e-9) {
+		rec.FailCase(t, "TestRegress", "Union2D:pruned-value-overestimates", map[string]any{"p": p, "q": q}, "Union2D(scaled circle, empty intersection): f(p)=%v f(q)=%v, |p-q|=%v", fp, fq, d)
+	}
 }
